@@ -79,6 +79,12 @@ pub struct Prepared {
 pub const TARGETS: &[&str] = &[
     "x25519", "x25519_base", "ed_keypair", "ed_sign", "ed_sign_ext", "poly1305", "poly1305_wrapmsg", "hmac_sha256", "hmac_sha512", "chacha20", "xchacha20", "salsa20",
     "aead_encrypt", "macresult_eq16", "macresult_eq20", "macresult_eq32", "macresult_eq64", "tag_eq", "leaky_demo",
+    // 19..
+    "ed_sign_ext_raw", "ed_ext_pub", "ed_exchange", "x_dh", "x_base", "hmac_sha1", "hmac_sha3_256", "hmac_blake2b", "hmac_ripemd160", "hmac_sha256_longmsg",
+    // 29..
+    "chacha8_k16", "chacha12", "chachaoriginal", "xsalsa20", "salsa20_k16", "aead_decrypt", "aead_incremental", "poly1305_chunks", "blake2b_mac", "blake2s_mac",
+    // 39..
+    "macresult_eq28", "macresult_eq48", "tag_cteq", "hmac_sha512_key128",
 ];
 
 #[no_mangle]
@@ -152,6 +158,144 @@ pub extern "C" fn ct_region(target: u32, secret: *const u8, out: *mut u8, prep: 
         }
         13 | 14 | 15 | 16 => o[0] = (black_box(&p.mac_secret) == black_box(&p.mac_public)) as u8,
         17 => o[0] = (black_box(&p.tag_secret) == black_box(&p.tag_public)) as u8,
+        19 | 20 => {
+            // extended secret exactly as supplied (not clamped): every 256-bit scalar value, below and above the group order
+            let mut ext = [0u8; 64];
+            ext[..32].copy_from_slice(s);
+            ext[32..].copy_from_slice(&PUBLIC_TAG[..32]);
+            if target == 19 {
+                *o = cryptoxide::ed25519::signature_extended(&p.msg[..100], &ext);
+            } else {
+                o[..32].copy_from_slice(&cryptoxide::ed25519::extended_to_public(&ext));
+            }
+        }
+        21 => {
+            let (kp, _pk) = cryptoxide::ed25519::keypair(s);
+            let mut sk = [0u8; 32];
+            sk.copy_from_slice(&kp[..32]);
+            o[..32].copy_from_slice(&cryptoxide::ed25519::exchange(&PUB_ED, &sk));
+        }
+        22 => {
+            let sk = cryptoxide::x25519::SecretKey::from(*s);
+            let pk = cryptoxide::x25519::PublicKey::from(PUB_U);
+            let ss: [u8; 32] = cryptoxide::x25519::dh(&sk, &pk).into();
+            o[..32].copy_from_slice(&ss);
+        }
+        23 => {
+            let sk = cryptoxide::x25519::SecretKey::from(*s);
+            let pk: [u8; 32] = cryptoxide::x25519::base(&sk).into();
+            o[..32].copy_from_slice(&pk);
+        }
+        24 => {
+            let mut h = Hmac::new(cryptoxide::sha1::Sha1::new(), &s[..]);
+            h.input(&p.msg[..100]);
+            h.raw_result(&mut o[..20]);
+        }
+        25 => {
+            let mut h = Hmac::new(cryptoxide::sha3::Sha3_256::new(), &s[..]);
+            h.input(&p.msg[..150]);
+            h.raw_result(&mut o[..32]);
+        }
+        26 => {
+            let mut h = Hmac::new(cryptoxide::blake2b::Blake2b::new(64), &s[..]);
+            h.input(&p.msg[..150]);
+            h.raw_result(&mut o[..64]);
+        }
+        27 => {
+            let mut h = Hmac::new(cryptoxide::ripemd160::Ripemd160::new(), &s[..]);
+            h.input(&p.msg[..100]);
+            h.raw_result(&mut o[..20]);
+        }
+        28 => {
+            let mut h = Hmac::new(cryptoxide::sha2::Sha256::new(), &s[..]);
+            h.input(&p.msg[..7]);
+            h.input(&p.msg[7..256]);
+            h.input(&p.msg[..64]);
+            h.raw_result(&mut o[..32]);
+        }
+        29 => {
+            let mut c = cryptoxide::chacha20::ChaCha::<8>::new(&s[..16], &[7u8; 12]);
+            p.buf.copy_from_slice(&p.msg);
+            c.process_mut(&mut p.buf[..200]);
+            o.copy_from_slice(&p.buf[..64]);
+        }
+        30 => {
+            let mut c = cryptoxide::chacha20::ChaCha::<12>::new(&s[..], &[7u8; 12]);
+            c.process(&p.msg[..130], &mut p.buf[..130]);
+            c.process(&p.msg[130..131], &mut p.buf[130..131]);
+            o.copy_from_slice(&p.buf[..64]);
+        }
+        31 => {
+            let mut c = cryptoxide::chacha20::ChaChaOriginal::<20>::new(&s[..], &[7u8; 8]);
+            p.buf.copy_from_slice(&p.msg);
+            c.process_mut(&mut p.buf[..200]);
+            o.copy_from_slice(&p.buf[..64]);
+        }
+        32 => {
+            let mut c = cryptoxide::salsa20::XSalsa20::new(s, &[7u8; 24]);
+            p.buf.copy_from_slice(&p.msg);
+            c.process_mut(&mut p.buf[..200]);
+            o.copy_from_slice(&p.buf[..64]);
+        }
+        33 => {
+            let mut c = cryptoxide::salsa20::Salsa::<12>::new(&s[..16], &[7u8; 8]);
+            p.buf.copy_from_slice(&p.msg);
+            c.process_mut(&mut p.buf[..200]);
+            o.copy_from_slice(&p.buf[..64]);
+        }
+        34 => {
+            // decryption under a secret key: the (public) ciphertext and tag do not verify, for every key alike
+            let mut c = ChaCha20Poly1305::new(&s[..], &[9u8; 12], &p.msg[..13]);
+            let (a, _b) = p.buf.split_at_mut(150);
+            o[0] = c.decrypt(&p.msg[..150], a, &PUBLIC_TAG[..16]) as u8;
+        }
+        35 => {
+            let mut ctx = cryptoxide::chacha20poly1305::Context::<20>::new(&s[..], &[9u8; 12]);
+            ctx.add_data(&p.msg[..5]);
+            ctx.add_data(&p.msg[5..40]);
+            let mut e = ctx.to_encryption();
+            p.buf.copy_from_slice(&p.msg);
+            e.encrypt_mut(&mut p.buf[..70]);
+            let (a, b) = p.buf.split_at_mut(128);
+            e.encrypt(&a[70..100], &mut b[..30]);
+            let tag = e.finalize();
+            o[..16].copy_from_slice(&tag.0);
+        }
+        36 => {
+            let mut m = Poly1305::new(s);
+            m.input(&p.msg[..7]);
+            m.input(&p.msg[7..23]);
+            m.input(&p.msg[23..56]);
+            m.input(&p.msg[56..57]);
+            m.input(&p.msg[57..137]);
+            m.raw_result(&mut o[..16]);
+        }
+        37 => {
+            let mut m = cryptoxide::blake2b::Blake2b::new_keyed(32, &s[..]);
+            m.input(&p.msg[..200]);
+            m.raw_result(&mut o[..32]);
+        }
+        38 => {
+            let mut m = cryptoxide::blake2s::Blake2s::new_keyed(32, &s[..]);
+            m.input(&p.msg[..200]);
+            m.raw_result(&mut o[..32]);
+        }
+        39 | 40 => o[0] = (black_box(&p.mac_secret) == black_box(&p.mac_public)) as u8,
+        41 => {
+            use cryptoxide::constant_time::CtEqual;
+            let c = black_box(&p.tag_secret).ct_eq(black_box(&p.tag_public));
+            o[0] = c.is_true() as u8;
+        }
+        42 => {
+            // key longer than the block: HMAC hashes it first (the secret is repeated to 160 bytes, a public length)
+            let mut k = [0u8; 160];
+            for i in 0..160 {
+                k[i] = s[i % 32];
+            }
+            let mut h = Hmac::new(cryptoxide::sha2::Sha512::new(), &k[..]);
+            h.input(&p.msg[..100]);
+            h.raw_result(&mut o[..64]);
+        }
         18 => {
             // deliberately leaky comparison, used only to prove that the monitors can see a leak
             let t = [7u8; 32];
@@ -170,6 +314,10 @@ pub extern "C" fn ct_region(target: u32, secret: *const u8, out: *mut u8, prep: 
 
 const PUB_U: [u8; 32] = [
     0xe6, 0xdb, 0x68, 0x67, 0x58, 0x30, 0x30, 0xdb, 0x35, 0x94, 0xc1, 0xa4, 0x24, 0xb1, 0x5f, 0x7c, 0x72, 0x66, 0x24, 0xec, 0x26, 0xb3, 0x35, 0x3b, 0x10, 0xa9, 0x03, 0xa6, 0xd0, 0xab, 0x1c, 0x4c,
+];
+// a public Ed25519 key (the RFC 8032 test 1 public key)
+const PUB_ED: [u8; 32] = [
+    0xd7, 0x5a, 0x98, 0x01, 0x82, 0xb1, 0x0a, 0xb7, 0xd5, 0x4b, 0xfe, 0xd3, 0xc9, 0x64, 0x07, 0x3a, 0x0e, 0xe1, 0x72, 0xf3, 0xda, 0xa6, 0x23, 0x25, 0xaf, 0x02, 0x1a, 0x68, 0xf7, 0x07, 0x51, 0x1a,
 ];
 // public message chosen so that for r = 1 the accumulator ends at 2^130 - 6 (top limb all ones): ff*48 || (2^128 - 8)
 const WRAP_MSG: [u8; 64] = {
@@ -204,6 +352,8 @@ fn main() {
         14 => 20,
         15 => 32,
         16 => 64,
+        39 => 28,
+        40 => 48,
         _ => 32,
     };
     let msg: Vec<u8> = (0..256usize).map(|i| (i * 131 + 7) as u8).collect();
@@ -226,10 +376,10 @@ fn main() {
     for s in &secrets {
         sec.fill(0);
         sec[..s.len().min(64)].copy_from_slice(&s[..s.len().min(64)]);
-        if (13..=16).contains(&target) {
+        if (13..=16).contains(&target) || target == 39 || target == 40 {
             prep.mac_secret = MacResult::new(&sec[..maclen]);
         }
-        if target == 17 {
+        if target == 17 || target == 41 {
             prep.tag_secret = Tag(<[u8; 16]>::try_from(&sec[..16]).unwrap());
         }
         if signal {
@@ -238,11 +388,11 @@ fn main() {
         if taint {
             // mark the secret "undefined": memcheck then reports every conditional jump that depends on it
             vg_request(MAKE_MEM_UNDEFINED, sec.as_ptr(), 64);
-            if (13..=16).contains(&target) {
+            if (13..=16).contains(&target) || target == 39 || target == 40 {
                 let c = prep.mac_secret.code();
                 vg_request(MAKE_MEM_UNDEFINED, c.as_ptr(), c.len());
             }
-            if target == 17 {
+            if target == 17 || target == 41 {
                 vg_request(MAKE_MEM_UNDEFINED, prep.tag_secret.0.as_ptr(), 16);
             }
         }
